@@ -157,12 +157,13 @@ pub fn run_case(ctx: &Ctx, c: &Case) -> Vec<Viol> {
         let stranger = lab.stranger;
         lab.sim.deliver_to(T, stranger, scrub.clone());
         let before = lab.observe();
-        lab.sim.deliver_to(T, src, bytes.clone());
         let one = if c.age == 0 && idx == 0 || !c.injections[..idx].iter().any(|i| matches!(i, Inj::Tick)) {
             json!({"kind": "inject", "case": {"state": c.state, "injections": [inj], "stale": c.stale, "age": c.age}})
         } else {
             json!({"kind": "inject", "case": {"state": c.state, "injections": &c.injections[..=idx], "stale": c.stale, "age": c.age}})
         };
+        // "keeps running": a node event that never returns is reported by the hang watchdog with this case
+        crate::engine::hang_guard_json("node-datagram", &one, || lab.sim.deliver_to(T, src, bytes.clone()));
         if let Some((_, p, ctxt)) = lab.sim.panics.first() {
             out.push(Viol::new(
                 format!("node-{}", p.sig()),
